@@ -12,15 +12,20 @@
        ply.ReadMesh of the file written by ply.SplatPly returns the same point cloud, every attribute of the 51-writer /
        62-property table under its own name with every component the float64 image of the float32 that was written.
 
-   Statements only; proofs live in Formats/SplatProofs.v, SplatReal.v, SpzProofs.v, SplatPlyLink.v.
+   Round 4 additions (end of the file): the float-only steps over the reals with binary32 rounding instantiated by Flocq
+   and numeric side conditions by Interval (module RealFloat), spz.ReadHeader, the empty SplatPly cloud.
+
+   Statements only; proofs live in Formats/SplatProofs.v, SplatReal.v, SplatInterval.v, SpzProofs.v, SpzExtraProofs.v,
+   SplatPlyLink.v.
    Models: Formats/Splat.v (splat.Write / splat.Read, SplatPly table), Formats/Spz.v (spz.Read after gunzip,
    reference encoder of the published layout); clause (3) is stated on C04's writer model (Formats/PlyWrite.v) and
    C08's reader model (Formats/PlyRead.v). *)
 From PF Require Import Base.Bytes Formats.Splat Formats.SplatProofs Formats.Spz Formats.SpzProofs.
 From Coq Require Import QArith Qabs.
-From PF Require Formats.SplatReal.
+From PF Require Formats.SplatReal Formats.SplatInterval Formats.SpzExtra Formats.SpzExtraProofs.
+From Flocq Require Core.
 From PF Require Formats.PlyRead Formats.PlyWrite Formats.PlyWriteProofs Formats.SplatPlyLink.
-From Coq Require Reals.
+From Coq Require Reals Lra.
 Open Scope N_scope.
 
 (* ====================== .splat ====================== *)
@@ -341,3 +346,115 @@ Theorem splat_clause :
 Proof. split; [exact SplatProofs.roundtrip_quant|exact SplatReal.scale_roundtrip_real]. Qed.
 Print Assumptions splat_clause.
 End RealScale.
+
+(* ====================== round 4 ====================== *)
+
+(* spz.ReadHeader (load.go): on the 16 header bytes followed by anything it returns the header as written and reports
+   an error exactly when Validate fails; on fewer than 16 bytes there is no header *)
+Theorem spz_read_header : forall (h : header) (rest : list N), header_ok h ->
+  SpzExtra.read_header (enc_header h ++ rest) = Some (h, validate h).
+Proof. exact SpzExtraProofs.read_header_enc. Qed.
+Print Assumptions spz_read_header.
+
+Theorem spz_read_header_short : forall l : list N, (length l < 16)%nat -> SpzExtra.read_header l = None.
+Proof. exact SpzExtraProofs.read_header_short. Qed.
+Print Assumptions spz_read_header_short.
+
+(* decode and ReadHeader agree: whenever decode accepts a stream, ReadHeader returns the same header without error *)
+Theorem spz_read_header_decode : forall (l : list N) (h : header) (f : fields),
+  decode l = Some (h, f) -> SpzExtra.read_header l = Some (h, true).
+Proof. exact SpzExtraProofs.read_header_of_decode. Qed.
+Print Assumptions spz_read_header_decode.
+
+(* clause (3), the case the theorem above leaves out: the empty cloud (no vertex, hence no attribute) is written as a
+   header announcing zero vertices and read back as the empty point cloud -- by computation on the two models *)
+Module SplatPlyEmpty.
+Import PlyRead PlyWrite PlyWriteProofs SplatPlyLink.
+Open Scope list_scope.
+Example splatply_empty_cloud :
+  let m := {| w_topo := TPoint; w_idx := []; w_n := 0; w_attrs := [] |} in
+  exists file, PlyWrite.write splat_opts BinLE m = Ok file /\ pf_body file = BodyBin [] /\
+    read_mesh file = Ok {| m_topo := TPoint; m_idx := []; m_attrs := [] |}.
+Proof. cbv zeta. eexists. split; [vm_compute; reflexivity|]. split; vm_compute; reflexivity. Qed.
+End SplatPlyEmpty.
+
+(* The float-only steps over the real numbers (standard-library real-number axioms, as splat_scale_real). *)
+Module RealFloat.
+Import Reals.
+Import Flocq.Core.Core.
+Local Open Scope R_scope.
+
+(* Scale, binary32 made concrete.  [round radix2 (FLT_exp (-149) 24) ZnearestE] is Flocq's round-to-nearest-even into
+   the binary32 format (24-bit significand, gradual underflow, no upper bound).  For every scale -87 <= s <= 88 the
+   value exp s is a normal number (>= 2^-126), the stored value does not exceed the largest finite float32
+   (2^24 - 1) * 2^104, so the unbounded format IS float32 there, and the log of the stored value is within 2^-23 of s.
+   No hypothesis about the rounding is left (splat_scale_real assumed its relative error). *)
+Theorem splat_scale_float32 :
+  (forall s : R, -87 <= s <= 88 ->
+     / IZR (2 ^ 126) <= exp s /\
+     round radix2 (FLT_exp (-149) 24) ZnearestE (exp s) <= IZR ((2 ^ 24 - 1) * 2 ^ 104) /\
+     Rabs (ln (round radix2 (FLT_exp (-149) 24) ZnearestE (exp s)) - s) <= / 8388608) /\
+  (* ... with an inexact exp / log on top (Go's float64 math.Exp and math.Log): relative error e on exp, absolute
+     error e' on log  ==>  within 2^-23 + 2e + e' *)
+  (forall (expg logg : R -> R) (e e' : R),
+     0 <= e <= / 4 ->
+     (forall x, Rabs (expg x - exp x) <= e * exp x) ->
+     (forall y, 0 < y -> Rabs (logg y - ln y) <= e') ->
+     forall s, -86 <= s <= 87 ->
+     Rabs (logg (round radix2 (FLT_exp (-149) 24) ZnearestE (expg s)) - s) <= / 8388608 + 2 * e + e').
+Proof. split; [exact SplatInterval.scale_float32|exact SplatInterval.scale_float32_with_libm]. Qed.
+Print Assumptions splat_scale_float32.
+(* (one statement, one Print Assumptions: each of those walks through Flocq and Interval and takes seconds) *)
+
+(* Opacity.  For EVERY real opacity o: alpha = 1/(1+exp(-o)) is strictly between 0 and 1, the stored byte
+   floor(alpha * 255) is in 0..254 and byte/255 lies within one step below alpha. *)
+Theorem splat_opacity_byte_real : forall o : R,
+  let alpha := / (1 + exp (- o)) in let b := Zfloor (alpha * 255) in
+  (0 <= b <= 254)%Z /\ 0 <= alpha - IZR b / 255 < / 255.
+Proof. exact SplatInterval.opacity_byte_real. Qed.
+Print Assumptions splat_opacity_byte_real.
+
+(* The reader returns -ln(1/a - 1) for a = byte/255; when the byte is not 0 its sigmoid is exactly a, so the opacity
+   read back is within one 8-bit step of the original in the sigmoid domain; the byte is not 0 from o = -5.5 on. *)
+Theorem splat_opacity_roundtrip_real : forall o : R,
+  let sig x := / (1 + exp (- x)) in let b := Zfloor (sig o * 255) in
+  (1 <= b)%Z -> Rabs (sig (- ln (1 / (IZR b / 255) - 1)) - sig o) < / 255.
+Proof. exact SplatInterval.opacity_roundtrip_real. Qed.
+Print Assumptions splat_opacity_roundtrip_real.
+
+(* the model's exact quantiser on the float64 alpha that Go computed, against the real sigmoid: an alpha within eps of
+   sigmoid(o) is stored and dequantised within 1/255 + eps of sigmoid(o) *)
+Theorem splat_opacity_model_vs_sigmoid : forall (a : Q) (o eps : R),
+  (0 <= a <= 1)%Q -> Rabs (Q2R a - / (1 + exp (- o))) <= eps ->
+  Rabs (Q2R (deq_alpha (zb (qalpha a))) - / (1 + exp (- o))) <= / 255 + eps.
+Proof. exact SplatInterval.opacity_model_vs_sigmoid. Qed.
+Print Assumptions splat_opacity_model_vs_sigmoid.
+
+(* two numeric facts closed by the Interval tactic: the stored opacity byte is at least 1 from o = -5.5 on (so the
+   value read back is finite and the theorem above applies), and the colour constant of write.go is 1/(2 sqrt pi)
+   to 2^-56 *)
+Theorem splat_numeric_facts :
+  (forall o : R, -11 / 2 <= o -> (1 <= Zfloor (/ (1 + exp (- o)) * 255))%Z) /\
+  Rabs (Q2R SH_C0 - / (2 * sqrt PI)) <= / 72057594037927936.
+Proof. split; [exact SplatInterval.opacity_byte_positive|exact SplatInterval.SH_C0_value]. Qed.
+Print Assumptions splat_numeric_facts.
+
+(* SPZ rotation with the real square root: unit norm when the dequantised vector part is in the unit ball, w = 0
+   outside; and the model's fourth component is the square of that w *)
+Theorem spz_rotation_unit : forall x y z : R,
+  let w := sqrt (Rmax 0 (1 - (x * x + y * y + z * z))) in
+  (x * x + y * y + z * z <= 1 -> x * x + y * y + z * z + w * w = 1) /\
+  (1 <= x * x + y * y + z * z -> w = 0) /\ 0 <= w.
+Proof. exact SplatInterval.spz_rotation_unit. Qed.
+Print Assumptions spz_rotation_unit.
+
+Theorem spz_rotation_model_w : forall b0 b1 b2 : N,
+  let '(x, y, z, w2) := rot_of [b0; b1; b2] 0 in
+  sqrt (Q2R w2) = sqrt (Rmax 0 (1 - (Q2R x * Q2R x + Q2R y * Q2R y + Q2R z * Q2R z))).
+Proof. exact SplatInterval.spz_rot_model_w. Qed.
+Print Assumptions spz_rotation_model_w.
+
+(* non-vacuity of the range hypotheses *)
+Example real_float_example : -87 <= 0 <= 88 /\ -11 / 2 <= 0.
+Proof. split; [split|]; Lra.lra. Qed.
+End RealFloat.
